@@ -34,7 +34,13 @@ func main() {
 	switch os.Args[1] {
 	case "check":
 		fs.Parse(os.Args[4:])
-		opt := options{workers: *workers, solver: *solver, timeoutMs: *timeout, samplesPer: 2}
+		opt := options{workers: *workers, solver: *solver, timeoutMs: *timeout, samplesPer: 2, budgetS: 600}
+		if os.Args[3] == "thorough" {
+			opt.budgetS = 3 * 3600
+		}
+		if v, err := strconv.Atoi(os.Getenv("KV_BUDGET")); err == nil {
+			opt.budgetS = v
+		}
 		fs.Visit(func(f *flag.Flag) {
 			if f.Name == "solver" {
 				opt.solverSet = true
